@@ -206,8 +206,64 @@ def run_list(strings):
     return p
 
 
+# ------------------------------------------------------------------------------------------
+# several parser objects in one process (two default ones, one created with bare_id_matches_all=False), expressions parsed in
+# every order: what a parser answers depends on its own configuration and the expression only
+HIST_EXPRS = ['001001', '/001001', '@[1]/001001[0]', '001001[1:]', '/001001[', '@[2', ' 001001 ', '>001001/002001',
+              '/001001.A01001[-1]']
+HIST_PARSERS = [{}, {'bare_id_matches_all': False}, {}]
+
+
+def _observe(parser, PErr, expr):
+    try:
+        path = parser.parse(expr)
+    except PErr:
+        return ('rejected',)
+    except Exception as e:
+        return ('exc', type(e).__name__)
+    return ('ok', repr(path.subset_slice), tuple((c.separator, c.id, repr(c.slice)) for c in path.components))
+
+
+def run_parser_histories(args):
+    import itertools
+    firsts, length = args
+    NodePathParser, PErr = _impl()
+    p = Partial()
+    ev = [(pi, ei) for pi in range(len(HIST_PARSERS)) for ei in range(len(HIST_EXPRS))]
+    golden = {(pi, ei): _observe(NodePathParser(**HIST_PARSERS[pi]), PErr, HIST_EXPRS[ei]) for pi, ei in ev}
+    for first in firsts:
+        for rest in itertools.product(range(len(ev)), repeat=length - 1):
+            h = (first,) + rest
+            parsers = [NodePathParser(**kw) for kw in HIST_PARSERS]
+            p.n['exec'] += 1
+            for step, j in enumerate(h):
+                pi, ei = ev[j]
+                got = _observe(parsers[pi], PErr, HIST_EXPRS[ei])
+                p.n['parses'] += 1
+                if got != golden[(pi, ei)]:
+                    p.violation('parser-history|%s' % ('other-configuration' if HIST_PARSERS[pi] else 'default'),
+                                {'history': [list(ev[x]) for x in h[:step + 1]]},
+                                'parser %d (%r) parses %r as %r after the history %r; a fresh parser of the same configuration gives %r'
+                                % (pi, HIST_PARSERS[pi], HIST_EXPRS[ei], got, [(ev[x][0], HIST_EXPRS[ev[x][1]]) for x in h[:step]],
+                                   golden[(pi, ei)]))
+                    break
+                p.outcome((pi, ei, got[0]))
+    p.n['nodes'] += p.n['parses'] + 1
+    p.n['edges'] += p.n['parses']
+    return p
+
+
 def replay(part, case):
     NodePathParser, PErr = _impl()
+    if part == 'parser-histories':
+        parsers = [NodePathParser(**kw) for kw in HIST_PARSERS]
+        got = None
+        for pi, ei in case['history']:
+            got = _observe(parsers[pi], PErr, HIST_EXPRS[ei])
+        pi, ei = case['history'][-1]
+        gold = _observe(NodePathParser(**HIST_PARSERS[pi]), PErr, HIST_EXPRS[ei])
+        return [{'sig': 'parser-history|%s' % ('other-configuration' if HIST_PARSERS[pi] else 'default'),
+                 'detail': '%r vs fresh %r' % (got, gold)}] if got != gold else []
     outcome, v = judge(NodePathParser(), PErr, case)
     return [{'sig': v[0], 'detail': v[1]}] if v else []
 
@@ -245,4 +301,11 @@ def main(tier, seed):
     p.n['edges'] = len(muts)
     p.sample(muts[0]); p.sample(muts[-1])
     rep.add_part('mutations', p, bounds={'seeds': len(SEEDS), 'edit_distance': 1, 'cases': len(muts)})
+    nev = len(HIST_PARSERS) * len(HIST_EXPRS)
+    hl = 3 if tier == 'quick' else 4
+    p = merge_all(run_shards(run_parser_histories, [([i], hl) for i in range(nev)]))
+    rep.add_part('parser-histories', p, bounds={'parsers': ['default', 'bare_id_matches_all=False', 'default'], 'expressions': HIST_EXPRS,
+                                                'history_length': hl, 'histories': nev ** hl},
+                 rule='every sequence of (parser object, expression) parses over three parser objects living in one process; each '
+                      'step is compared with a fresh parser of the same configuration')
     return rep.finish()
